@@ -9,7 +9,7 @@
 (*   obs    : the public API projected  -> Failing(ps, obs) = {}              *)
 (* Every rejected case prints one REJECT line; acceptance is the              *)
 (* POSTCONDITION (all events consumed, no reject).                            *)
-EXTENDS AseObs, Json, IOUtils
+EXTENDS AseObs, AseParse, Json, IOUtils
 
 Rec == ndJsonDeserialize(IOEnv.TRACE)
 
@@ -28,7 +28,9 @@ TraceInit == l = 1 /\ ps = Idle /\ res = "" /\ case = "" /\ base = NoBase /\ TLC
              /\ TLCSet(43, 0) /\ TLCSet(44, 0) /\ TLCSet(45, 0) /\ TLCSet(46, 0)
 
 IsEvent(e) == l <= Len(Rec) /\ Rec[l].ev = e /\ l' = l + 1
-Full == ps # Idle
+\* mode "bytes": the program is derived from the recorded bytes by AseParse!Decode; when the bytes do not decode
+\* cleanly only the outcome class is known
+Full == ps # Idle /\ ps.st # "bytesclass"
 
 KindName(k) == CASE k = "layer" -> "Layer" [] k = "cel" -> "Cel" [] k = "tags" -> "Tags" [] k = "slice" -> "Slice"
   [] k = "ud" -> "UserData" [] k = "pal" -> "Palette" [] k = "oldpal04" -> "OldPalette04" [] k = "oldpal11" -> "OldPalette11"
@@ -48,7 +50,12 @@ TBegin ==
   /\ IsEvent("begin")
   /\ LET e == Rec[l] IN
        /\ case' = e.case
-       /\ ps' = IF e.mode = "full" /\ Len(e.hdr) = 1 THEN InitPS(e.hdr[1]) ELSE Idle
+       /\ ps' = IF e.mode = "full" /\ Len(e.hdr) = 1 THEN InitPS(e.hdr[1])
+                ELSE IF e.mode = "bytes"
+                THEN LET d == Decode(e.bytes) IN
+                     IF d.t = "ok" THEN ApplyFrames(InitPS(d.prog.hdr), d.prog.frames, 1)
+                     ELSE [st |-> "bytesclass", out |-> OutcomeOfBytes(e.bytes), why |-> d.why]
+                ELSE Idle
        /\ res' = ""
        \* a case whose meta carries variant_of is another encoding of the preceding base case
        /\ base' = IF "variant_of" \in DOMAIN e.meta THEN [base EXCEPT !.var = TRUE] ELSE NoBase
@@ -88,8 +95,10 @@ TEnd ==
                                [] OTHER -> e.result = "ok" \/ IsErr(e.result),
                              <<case, "load_result", e.result, e.msg, "spec_outcome", out, fin.must, fin.soft>>)
           ELSE /\ ps' = ps
-               /\ Count(46)
-               /\ Verdict(e.result = "ok" \/ IsErr(e.result), <<case, "load_result", e.result, e.msg>>)
+               /\ Count(IF ps # Idle /\ ps.out = "err" THEN 44 ELSE IF ps # Idle /\ ps.out = "either" THEN 45 ELSE 46)
+               /\ Verdict(IF ps # Idle /\ ps.out = "err" THEN IsErr(e.result) ELSE (e.result = "ok" \/ IsErr(e.result)),
+                          <<case, "load_result", e.result, e.msg, "spec_outcome", IF ps = Idle THEN "unstructured" ELSE ps.out,
+                            IF ps = Idle THEN "" ELSE ps.why, {}>>)
        /\ Verdict(e.peak_kib <= 65536 + 8 * e.len /\ e.refused_kib = 0,
                   <<case, "memory_bound", "peak_kib", e.peak_kib, "largest_request_kib", e.maxreq_kib, "refused_kib", e.refused_kib, "input_bytes", e.len>>)
   /\ UNCHANGED case
